@@ -77,64 +77,133 @@ func genOpsInput(t *rapid.T) gen.Seq {
 	return gen.SeqFromZSON(sb.String())
 }
 
-func genOp(t *rapid.T, recs *bool) string {
-	k := ir(t, -3, 9, "k")
-	if !*recs {
-		// the stream holds primitives: only value-level operators make sense (an occasional field operator is kept)
-		switch ir(t, 0, 6, "primop") {
-		case 0:
-			return fmt.Sprintf("head %d", ir(t, 1, 12, "headn"))
-		case 1:
-			return fmt.Sprintf("tail %d", ir(t, 1, 12, "tailn"))
-		case 2:
-			return pick(t, "psort", "sort this", "sort -r this")
-		case 3:
-			return pick(t, "pwhere", "where this > 1", `where this == "a"`, "where this <= 3")
-		case 4:
-			return pick(t, "pyield", "yield {v:this}", "yield this")
-		case 5:
-			*recs = true
-			return "yield {v:this}"
-		default:
-			return pick(t, "pfield", "cut a", "put x:=1", "drop a")
+// opTmpl is an operator template: the fields it reads and what it does to the set of known fields.
+type opTmpl struct {
+	text  string
+	reads []string
+	eff   string   // keep | set (fields become out) | add (out added) | del (out removed) | prim (stream holds non-records afterwards)
+	out   []string
+}
+
+func tmpl(text, reads, eff, out string) opTmpl {
+	split := func(s string) []string {
+		if s == "" {
+			return nil
+		}
+		return strings.Split(s, ",")
+	}
+	return opTmpl{text, split(reads), eff, split(out)}
+}
+
+var recordOps = []opTmpl{
+	tmpl("cut a,m", "a,m", "set", "a,m"), tmpl("cut s,a", "s,a", "set", "s,a"), tmpl("cut x:=a+b,s", "a,b,s", "set", "x,s"),
+	tmpl("cut a", "a", "set", "a"), tmpl("cut m", "m", "set", "m"), tmpl("cut r.x,a", "r,a", "set", "r,a"), tmpl("cut a,zz", "a,zz", "set", "a,zz"),
+	tmpl("cut b,c", "b,c", "set", "b,c"), tmpl("cut x:=a*2,y:=b", "a,b", "set", "x,y"),
+	tmpl("drop m", "m", "del", "m"), tmpl("drop a,b", "a,b", "del", "a,b"), tmpl("drop r.x", "r", "keep", ""), tmpl("drop zz", "zz", "keep", ""),
+	tmpl("drop s", "s", "del", "s"), tmpl("drop c,r", "c,r", "del", "c,r"),
+	tmpl("put x:=a+1", "a", "add", "x"), tmpl("put a:=b", "a,b", "keep", ""), tmpl("put x:=a,y:=s", "a,s", "add", "x,y"), tmpl("put x:=a-b", "a,b", "add", "x"),
+	tmpl("put r.z:=a", "a", "add", "r"), tmpl("put x:=a*K", "a", "add", "x"), tmpl("put x:=m", "m", "add", "x"), tmpl(`put x:="k"`, "", "add", "x"),
+	tmpl("rename q:=a", "a", "del", "a"), tmpl("rename q:=m", "m", "del", "m"), tmpl("rename r.z:=r.x", "r", "keep", ""), tmpl("rename q:=s", "s", "del", "s"), tmpl("rename q:=zz", "zz", "keep", ""),
+	tmpl("yield a", "a", "prim", ""), tmpl("yield m", "m", "prim", ""), tmpl("yield a, s", "a,s", "prim", ""), tmpl("yield {x:a,y:m}", "a,m", "set", "x,y"),
+	tmpl("yield r", "r", "set", "x,y"), tmpl("yield this", "", "keep", ""), tmpl("yield a+b", "a,b", "prim", ""), tmpl("yield s", "s", "prim", ""),
+	tmpl("yield {...this,z:a}", "a", "add", "z"), tmpl("yield c", "c", "prim", ""),
+	tmpl("where a > K", "a", "keep", ""), tmpl("where a == b", "a,b", "keep", ""), tmpl(`where s == "a"`, "s", "keep", ""), tmpl("where b <= K", "b", "keep", ""),
+	tmpl("where a > 100", "a", "keep", ""), tmpl("where a+b >= K", "a,b", "keep", ""), tmpl(`where s != "B"`, "s", "keep", ""), tmpl("where a != K", "a", "keep", ""), tmpl("where K < a", "a", "keep", ""),
+	tmpl("where a > K", "a", "keep", ""), tmpl("where b <= K", "b", "keep", ""),
+	tmpl("head N", "", "keep", ""), tmpl("head N", "", "keep", ""), tmpl("tail N", "", "keep", ""), tmpl("tail N", "", "keep", ""),
+	tmpl("sort a", "a", "keep", ""), tmpl("sort -r a", "a", "keep", ""), tmpl("sort b, a", "a,b", "keep", ""), tmpl("sort m", "m", "keep", ""), tmpl("sort s", "s", "keep", ""),
+	tmpl("sort -r m", "m", "keep", ""), tmpl("sort a, s", "a,s", "keep", ""), tmpl("sort -nulls first m", "m", "keep", ""), tmpl("sort zz", "zz", "keep", ""),
+	tmpl("over c", "c", "prim", ""), tmpl("over c", "c", "prim", ""), tmpl("over r", "r", "set", "key,value"), tmpl("over c, c", "c", "prim", ""),
+}
+
+var valueOps = []opTmpl{
+	tmpl("head N", "", "keep", ""), tmpl("tail N", "", "keep", ""), tmpl("sort this", "", "keep", ""), tmpl("sort -r this", "", "keep", ""),
+	tmpl("where this > 1", "", "keep", ""), tmpl(`where this == "a"`, "", "keep", ""), tmpl("where this <= 3", "", "keep", ""),
+	tmpl("yield {v:this}", "", "set", "v"), tmpl("yield {v:this}", "", "set", "v"), tmpl("yield this", "", "keep", ""),
+	tmpl("cut a", "a", "set", "a"), tmpl("put x:=1", "", "keep", ""), tmpl("drop a", "a", "keep", ""),
+}
+
+type opState struct {
+	fields map[string]bool
+	recs   bool
+	// missBudget: how many more operators may read a field that does not exist.  Chains of operators over
+	// missing fields make the vector runtime's nested dynamic/error vectors grow exponentially (minutes, gigabytes
+	// for four cuts over ten rows), which no oracle here can judge and the shared machine cannot afford.
+	missBudget int
+}
+
+func genOp(t *rapid.T, st *opState) string {
+	from := recordOps
+	if !st.recs {
+		from = valueOps
+	}
+	var tm opTmpl
+	for try := 0; ; try++ {
+		tm = pickOf(t, "tmpl", from)
+		missing := 0
+		for _, f := range tm.reads {
+			if !st.fields[f] {
+				missing++
+			}
+		}
+		if missing > 0 && computes(tm.text) {
+			// arithmetic and comparisons on a missing operand are an expression-level finding (error operand not propagated)
+			if try < 40 {
+				continue
+			}
+			tm = tmpl("head N", "", "keep", "")
+			break
+		}
+		if missing == 0 || try >= 8 && missing <= st.missBudget {
+			st.missBudget -= min(missing, st.missBudget)
+			break
+		}
+		if missing <= st.missBudget && chance(t, 12, "allow-missing") {
+			st.missBudget -= missing
+			break
+		}
+		if try >= 40 {
+			tm = tmpl("head N", "", "keep", "")
+			break
 		}
 	}
-	switch ir(t, 0, 10, "op") {
-	case 0:
-		return "cut " + pick(t, "cut", "a,m", "s,a", "x:=a+b,s", "a", "m", "r.x,a", "a,zz", "b,c", "x:=a*2,y:=b")
-	case 1:
-		return "drop " + pick(t, "drop", "m", "a,b", "r.x", "zz", "s", "c,r")
-	case 2:
-		return "put " + pick(t, "put", "x:=a+1", "a:=b", "x:=a,y:=s", "x:=a-b", "r.z:=a", fmt.Sprintf("x:=a*%d", k), "x:=m", `x:="k"`)
-	case 3:
-		return "rename " + pick(t, "rename", "q:=a", "q:=m", "r.z:=r.x", "q:=s", "q:=zz")
-	case 4:
-		y := pick(t, "yield", "a", "m", "a, s", "{x:a,y:m}", "r", "this", "a+b", "s", "{...this,z:a}", "c")
-		if !strings.HasPrefix(y, "{") && y != "this" && y != "r" {
-			*recs = false
+	switch tm.eff {
+	case "set":
+		st.fields = map[string]bool{}
+		for _, f := range tm.out {
+			st.fields[f] = true
 		}
-		return "yield " + y
-	case 5, 6:
-		return "where " + pick(t, "where", fmt.Sprintf("a > %d", k), "a == b", `s == "a"`, fmt.Sprintf("b <= %d", k), "a > 100", fmt.Sprintf("a+b >= %d", k), `s != "B"`, fmt.Sprintf("a != %d", k), fmt.Sprintf("%d < a", k))
-	case 7:
-		return fmt.Sprintf("head %d", ir(t, 1, 12, "headn"))
-	case 8:
-		return fmt.Sprintf("tail %d", ir(t, 1, 12, "tailn"))
-	case 9:
-		return "sort " + pick(t, "sort", "a", "-r a", "b, a", "m", "s", "-r m", "a, s", "-nulls first m", "zz")
-	default:
-		o := pick(t, "over", "c", "c", "r", "c, c")
-		*recs = o == "r"
-		return "over " + o
+		st.recs = true
+	case "add":
+		for _, f := range tm.out {
+			st.fields[f] = true
+		}
+	case "del":
+		for _, f := range tm.out {
+			delete(st.fields, f)
+		}
+	case "prim":
+		st.fields = map[string]bool{}
+		st.recs = false
 	}
+	if strings.HasPrefix(tm.text, "rename q:=") && tm.eff == "del" {
+		st.fields["q"] = true
+	}
+	text := strings.ReplaceAll(tm.text, "K", fmt.Sprint(ir(t, -3, 9, "k")))
+	text = strings.ReplaceAll(text, "N", fmt.Sprint(ir(t, 1, 12, "n")))
+	return text
+}
+
+func computes(text string) bool {
+	return strings.HasPrefix(text, "where ") || strings.ContainsAny(text, "+*") || strings.Contains(text, "a-b")
 }
 
 func genOpsCase(t *rapid.T) OpsCase {
 	c := OpsCase{Input: genOpsInput(t)}
 	n := ir(t, 1, 4, "nops")
-	recs := true
+	st := &opState{fields: map[string]bool{"a": true, "b": true, "s": true, "m": true, "c": true, "r": true}, recs: true, missBudget: 1}
 	for i := 0; i < n; i++ {
-		c.Ops = append(c.Ops, genOp(t, &recs))
+		c.Ops = append(c.Ops, genOp(t, st))
 	}
 	return c
 }
@@ -164,11 +233,6 @@ func streamShape(vals []zed.Value) string {
 		s = "records"
 	case prims:
 		s = "values"
-	}
-	if len(types) > 1 {
-		s += ":several-types"
-	} else if len(types) == 1 {
-		s += ":one-type"
 	}
 	return s
 }
@@ -246,7 +310,7 @@ func opsRootCause(ops []string, at int, lens []int, sym string, sam, vam []zed.V
 	}
 	// 2. field access on the output of an operator that selected a subset (where, head, tail produce vector views;
 	// sort materialises and re-vectorises)
-	if referencesField(ops[at]) && strings.Contains(sym, "missing") || strings.HasSuffix(sym, "-value-differs") || sym == "fewer-values" || sym == "more-values" {
+	if referencesField(ops[at]) {
 		for j := at - 1; j >= 0; j-- {
 			k := opKind(ops[j])
 			if k == "sort" {
